@@ -267,14 +267,16 @@ GATE_TEXT = {
            "byte compared with zero unmasked, the decoder's own conjuncts, and the verification equation; signature bytes never "
            "reach a reducing decoder. NOT decided: that the equation/hash prefix computed is the right one, signing determinism.",
     "C08": "Gate clause of C08: ECDSA verify_hash depends on even length, zero surplus bytes in BOTH halves, strict decoding and "
-           "non-zero test of r and of s, R not at infinity, final comparison; PrivateKey/PublicKey::decode range gates. NOT "
+           "non-zero test of r and of s, R not at infinity, final comparison; PrivateKey/PublicKey::decode range gates; G15 sign_hash, "
+           "verify_hash and verify_trunc_hash of one curve place the hash bytes into the scalar buffer identically. NOT "
            "decided: nonce derivation, the arithmetic of the equation.",
     "C09": "Gate clause of C09: verify depends on len == 48 (equality test), canonical s from sig[16..48], challenge comparison "
            "with sig[0..16]; ECDH status depends on peer decoding and the neutral test; key decoders' gates. NOT decided: "
            "challenge computation, ECDH key agreement arithmetic.",
     "C13": "Two clauses of C13: the UX_COMP / B227 tables (exhaustive) and the soundness gates of truncated verification "
            "(length, strict r/R decoding, non-zero r, Some(..) only under the point-equality check of the reconstructed "
-           "signature; r never reduced). NOT decided: completeness of the search.",
+           "signature; r never reduced); G15 the truncated verifier converts the hash like sign_hash / verify_hash. NOT decided: "
+           "completeness of the search.",
     "C15": "Structural clauses of C15: reachable-panic discipline of every public FROST function (totality rules, including the "
            "caller-establishes rule for the ordering assert) and the rejection gates of all decoders, decode_list, sign, share "
            "verification and signature assembly; G14 every test on the identifier comparator's result treats Equal separately or rejects it "
@@ -357,6 +359,18 @@ def eng_ordering(f, sub, prop):
 ENGINES["ordering"] = eng_ordering
 
 
+def eng_hashconv(f, sub, prop):
+    from . import hashconv
+    n = hashconv.run_hashconv(f, sub, prop)
+    if n < 2:      # p256 (three siblings) and secp256k1 (two) on the reviewed tree
+        sub.oblige(ok=False)
+        sub.add(Finding("G15", "anchor", "gates G15: only %d ECDSA module(s) with two or more described hash conversions (floor 2)" % n,
+                        config=f.config, prop=prop))
+
+
+ENGINES["hashconv"] = eng_hashconv
+
+
 def eng_flaginit(f, sub, prop):
     from . import flaginit
     n = flaginit.run_flaginit(f, sub, prop)
@@ -412,9 +426,9 @@ def check_C18(tier):
 
 
 CHECKS = {"C17": check_gates("C17", ["hashreset", "widecov"]), "C18": check_C18, "C20": check_gates("C20", ["maskdom", "muxshape", "limbcov", "gates"]), "C05": check_gates("C05", ["gates", "limbcov"]), "C06": check_gates("C06", ["gates", "limbcov"]), "C07": check_gates("C07", ["gates", "limbcov"]),
-          "C08": check_gates("C08", ["gates", "limbcov"]), "C09": check_gates("C09", ["gates", "limbcov"]),
+          "C08": check_gates("C08", ["gates", "limbcov", "hashconv"]), "C09": check_gates("C09", ["gates", "limbcov"]),
           "C15": check_gates("C15", ["gates", "totality", "limbcov", "ordering"]), "C16": check_gates("C16", ["gates"]),
-          "C02": check_C02, "C04": check_C04, "C13": check_gates("C13", ["uxcomp", "gates", "limbcov"], level="exploration"),
+          "C02": check_C02, "C04": check_C04, "C13": check_gates("C13", ["uxcomp", "gates", "limbcov", "hashconv"], level="exploration"),
           "C19": check_totality("C19"), "C10": check_totality("C10"), "C11": check_totality("C11")}
 
 
